@@ -350,6 +350,74 @@ func carryRule(c *Ctx, fnName, field string, preds []startPred) int {
 					before = false
 				}
 			}
+			// the start test must lie on every path to a success return of the same arm (a path that
+			// never looks at the start marker cannot honour it)
+			testBlock := st.Block()
+			for _, g := range gs {
+				iff := g.At.Instrs[len(g.At.Instrs)-1].(*ssa.If)
+				if cv := m.CondOf(iff); vecMatches(cv, sp.pattern) || vecMatches(cv, "!"+sp.pattern) {
+					testBlock = g.At
+				}
+			}
+			var ctx []core.Guard
+			for _, g := range core.DominatingGuards(testBlock) {
+				ctx = append(ctx, g)
+			}
+			for _, b := range fn.Blocks {
+				if len(b.Instrs) == 0 {
+					continue
+				}
+				ret, isRet := b.Instrs[len(b.Instrs)-1].(*ssa.Return)
+				if !isRet || len(ret.Results) == 0 || !core.IsNilConst(core.Resolve(ret.Results[len(ret.Results)-1])) {
+					continue
+				}
+				sameArm := true
+				rg := core.DominatingGuards(b)
+				for _, g := range ctx {
+					found := false
+					for _, x := range rg {
+						if x.Cond == g.Cond && x.Truth == g.Truth {
+							found = true
+						}
+					}
+					if !found {
+						sameArm = false
+					}
+				}
+				if sameArm && len(ctx) > 0 && !testBlock.Dominates(b) {
+					before = false
+					detail = fmt.Sprintf("the success return at %s is reachable without evaluating the start test", p.Position(ret.Pos()))
+				}
+			}
+			// on the start edge itself, every path must reach the clearing store before it can return
+			for _, g := range gs {
+				iff := g.At.Instrs[len(g.At.Instrs)-1].(*ssa.If)
+				cv := m.CondOf(iff)
+				if !(vecMatches(cv, sp.pattern) || vecMatches(cv, "!"+sp.pattern)) {
+					continue
+				}
+				start := g.At.Succs[0]
+				if !g.Truth {
+					start = g.At.Succs[1]
+				}
+				seen := map[*ssa.BasicBlock]bool{}
+				stack := []*ssa.BasicBlock{start}
+				for len(stack) > 0 {
+					x := stack[len(stack)-1]
+					stack = stack[:len(stack)-1]
+					if seen[x] || x == st.Block() {
+						continue
+					}
+					seen[x] = true
+					if len(x.Instrs) > 0 {
+						if ret, isRet := x.Instrs[len(x.Instrs)-1].(*ssa.Return); isRet && len(ret.Results) > 0 && core.IsNilConst(core.Resolve(ret.Results[len(ret.Results)-1])) {
+							before = false
+							detail = fmt.Sprintf("with the start marker set, the success return at %s is reachable without clearing %s", p.Position(ret.Pos()), field)
+						}
+					}
+					stack = append(stack, x.Succs...)
+				}
+			}
 			if before && len(uses) > 0 {
 				ok = true
 			}
